@@ -1,3 +1,4 @@
+pub mod filter;
 pub mod kb;
 pub mod lru;
 pub mod query;
